@@ -53,6 +53,214 @@ def norm_eol_literal(v):
     return out
 
 
+NBUF = 16384        # XMLReader::kCharBufSize: the character buffer is refilled in blocks of this many characters
+
+
+def u16hex(s):
+    return "".join("%04X" % ord(c) for c in s) or "-"
+
+
+def large_eol(ctx, xh, xm3):
+    """line-end normalisation across character-buffer refills: documents > 16K and > 32K characters whose line ends
+    (CR LF, CR, LF) are placed so that a CR falls on every offset N-3..N+2 around each multiple of 16384, in the
+    document entity and in an external parsed entity; plus CR LF-saturated texts in both parities, which put a CR
+    in the last buffer position whatever the exact refill arithmetic is.  Expected character data = the extracted
+    section 2.11 function (eol_spec) of the text; line number of a late element start = 1 + normalised line ends."""
+    rng = ctx.rng
+    docs = []      # (kind, prefix(before text), text, suffix, where)
+
+    def filler(n):
+        out = []
+        while len(out) < n:
+            out += list("x" * rng.choice([1, 3, 7, 20, 60])) + list(rng.choice(["\n", "\r\n", "\r", " "]))
+        return out[:n]
+    combos = [(d, st) for d in (-3, -2, -1, 0, 1, 2) for st in ("crlf", "cr", "crcrlf")]
+    rng.shuffle(combos)
+    must = [(-1, "crlf"), (-1, "crcrlf")]
+    chosen = must + [c for c in combos if c not in must][:(4 if ctx.tier == "quick" else 16)]
+    for (delta, style) in chosen:
+        for where in ("doc", "ent"):
+            pre = "<r>" if where == "doc" else ""
+            total = rng.choice([34000, 50000])
+            t = filler(total)
+            # CR index (0-based offset in the entity's character sequence) = k*N + delta
+            for k in range(1, total // NBUF + 1):
+                i = k * NBUF + delta - len(pre)
+                if i + 3 >= len(t) or i < 1:
+                    continue
+                if t[i - 1] == "\r":
+                    t[i - 1] = "y"
+                seq = {"crlf": ["\r", "\n", "z"], "cr": ["\r", "z", "z"], "crcrlf": ["\r", "\r", "\n"]}[style]
+                t[i:i + 3] = seq
+                if t[i + 3] == "\n":
+                    t[i + 3] = "w"
+            docs.append(("targeted/%s/%d" % (style, delta), where, "".join(t)))
+    for parity in (0, 1):
+        for where in ("doc", "ent"):
+            docs.append(("saturated/%d" % parity, where, ("q" * parity) + "\r\n" * 18000))
+    # expected text through the extracted spec
+    exp = C02.run_lines(xm3, ["eol " + u16hex(t) for _, _, t in docs])
+    lines, meta = [], []
+    for k, (kind, where, t) in enumerate(docs):
+        if where == "doc":
+            doc = "<r>" + t + "<e/></r>"
+            extra = ""
+            scs = C02.SCANNERS
+        else:
+            doc = '<!DOCTYPE r [<!ENTITY x SYSTEM "big.ent">]><r>&x;<e/></r>'
+            extra = " big.ent=" + t.encode("utf-8").hex().upper()
+            scs = ["IG", "DG"]
+        for sc in scs:
+            for a in C02.APIS:
+                ns = (k + len(sc) + len(a)) % 2
+                lines.append("parse %s %s %d %s l%s" % (a, sc, ns, doc.encode("utf-8").hex().upper(), extra))
+                meta.append((k, a, sc, ns))
+    out = C02.run_lines(xh, lines, jobs=8)
+    nbad = 0
+    for (k, a, sc, ns), req, o in zip(meta, lines, out):
+        ctx.count()
+        kind, where, t = docs[k]
+        model_t, spec_t = exp[k].split()
+        ev, errs, fh = C02.parse_impl(o)
+        ctx.distinct(("eol-large", kind, where, sc, a))
+        nline = 1 + (spec_t.count("000A") if where == "doc" else 0)   # '000A' aligned count below
+        units = [spec_t[i:i + 4] for i in range(0, len(spec_t), 4)]
+        nline = 1 + (units.count("000A") if where == "doc" else 0)
+        toks = ev.split(" ")
+        want_text = "T" + spec_t
+        got_text = toks[1] if len(toks) > 1 else ""
+        problem = None
+        if errs:
+            problem = "errors reported for a well-formed document: %s" % errs[:2]
+        elif got_text != want_text:
+            gu = [got_text[1:][i:i + 4] for i in range(0, len(got_text) - 1, 4)]
+            problem = ("character data differs from the section 2.11 normalisation of the input: %d characters delivered, "
+                       "%d expected, %d line feeds delivered, %d expected" % (len(gu), len(units), gu.count("000A"),
+                                                                              units.count("000A")))
+        elif a in ("sax", "sax2"):
+            st = [x for x in toks if x.startswith("S0065")]
+            ln = st[0].split("@")[1].split(":")[0] if st and "@" in st[0] else None
+            if ln != str(nline):
+                problem = "line number of the <e/> start tag is %s, expected %d (1 + normalised line ends)" % (ln, nline)
+        if problem:
+            nbad += 1
+            if nbad <= 3:
+                ctx.violation("eol-large", {"what": "%s/%s (%s, %s entity): %s" % (a, sc, kind, "document" if where == "doc" else "external parsed", problem),
+                                            "request": req, "impl": [ev[:200] + "...", errs, fh],
+                                            "expect": {"fatal": False, "events": None}})
+    ctx.coverage["large_eol_documents"] = len(docs)
+    ctx.coverage["traces_validated_against_impl"] += len(lines)
+
+
+def balanced_entities(ev):
+    st = []
+    for t in ev.split(" "):
+        if t.startswith("R"):
+            st.append(t[1:])
+        elif t.startswith("r"):
+            if not st or st[-1] != t[1:]:
+                return False
+            st.pop()
+    return not st
+
+
+def progressive(ctx, xh):
+    """parse() versus parseFirst/parseNext for SAXParser, SAX2XMLReader and XercesDOMParser on every scanner, with
+    entity-reference reporting on (DOM create-entity-reference-nodes, LexicalHandler startEntity/endEntity, advanced
+    handler start/endEntityReference) and off: the two must print the identical dump, entity events must be balanced,
+    and the dump without entity events must be the one with them after deleting the R/r tokens"""
+    import C02_dtd as GD
+    rng = ctx.rng
+    docs = []
+    n = 60 if ctx.tier == "quick" else 2000
+    while len(docs) < n:
+        d = GD.gen(rng)
+        if GD.expected_fatal(d):
+            continue
+        docs.append((GD.render(d, rng), "", ["IG", "DG"], GD.expected_events(d)))
+    for i in range(12 if ctx.tier == "quick" else 200):
+        body = "t%d<b>u</b>v" % i
+        ent = ("<?xml version='1.0' encoding='UTF-8'?>" if i % 2 else "") + body
+        nested = '<!ENTITY n "[&x;]">' if i % 3 == 0 else ""
+        ref = "&n;" if nested else "&x;"
+        doc = '<!DOCTYPE r [<!ENTITY x SYSTEM "e%d.ent">%s]><r a="1">p%sq<c/>%s</r>' % (i, nested, ref, ref if i % 4 == 0 else "")
+        docs.append((doc, " e%d.ent=%s" % (i, ent.encode().hex().upper()), ["IG", "DG"], None))
+    for i in range(10):
+        docs.append(("<r><a x='1'>t&amp;u<![CDATA[c]]></a><!--k--><?p d?><b/>tail</r>", "", C02.SCANNERS, None))
+    lines, meta = [], []
+    for k, (doc, extra, scs, exp) in enumerate(docs):
+        bx = doc.encode("utf-8").hex().upper()
+        for sc in scs:
+            for a in ("sax", "sax2", "dom"):
+                ns = (k + len(a)) % 2
+                for fl in ("-", "p", "r", "pr"):
+                    lines.append("parse %s %s %d %s %s%s" % (a, sc, ns, bx, fl, extra))
+                    meta.append((k, a, sc, ns, fl))
+            lines.append("parse ls %s %d %s r%s" % (sc, k % 2, bx, extra))
+            meta.append((k, "ls", sc, k % 2, "r"))
+    out = C02.run_lines(xh, lines, jobs=8)
+    res = {m: (o, req) for m, o, req in zip(meta, out, lines)}
+    nbad = 0
+
+    def bad(what, req, o, other=None):
+        nonlocal nbad
+        nbad += 1
+        if nbad <= 3:
+            ctx.violation("progressive", {"what": what, "request": req, "impl": o, "other": other,
+                                          "expect": {"fatal": False, "events": None}})
+    strip = lambda ev: " ".join(t for t in ev.split(" ") if not (t.startswith("R") or t.startswith("r"))) or "-"
+    for (k, a, sc, ns, fl), (o, req) in res.items():
+        ctx.count()
+        ctx.distinct(("prog", k, a, sc, fl))
+        ev, errs, fh = C02.parse_impl(o)
+        if a == "ls":
+            if not balanced_entities(ev):
+                bad("DOMLSParser tree: entity reference tokens not balanced", req, o)
+            continue
+        if errs:
+            bad("%s/%s flags=%s: errors on a well-formed document: %s" % (a, sc, fl, errs[:2]), req, o)
+            continue
+        if "p" in fl:
+            one = res[(k, a, sc, ns, fl.replace("p", "") or "-")][0]
+            if one != o:
+                bad("%s/%s: parseFirst/parseNext delivers a different stream than parse() (flags %s)" % (a, sc, fl),
+                    req, o, one)
+                continue
+        if "r" in fl:
+            if not balanced_entities(ev):
+                bad("%s/%s flags=%s: startEntity/endEntity (entity reference open/close) events are not balanced" % (a, sc, fl),
+                    req, o)
+                continue
+            plain = res[(k, a, sc, ns, fl.replace("r", "") or "-")][0]
+            # merged text may be split at an entity boundary: compare after re-merging adjacent T tokens
+            if remerge(strip(ev)) != remerge(C02.parse_impl(plain)[0]):
+                bad("%s/%s flags=%s: content with entity-reference reporting differs from content without" % (a, sc, fl),
+                    req, o, plain)
+        exp = docs[k][3]
+        if exp is not None and "r" not in fl and ev != exp:
+            bad("%s/%s flags=%s: content differs from the entity-expanded document" % (a, sc, fl), req, o, exp)
+    # cross API agreement with entity events on (one-shot)
+    for k in range(len(docs)):
+        for sc in docs[k][2]:
+            ref = res.get((k, "sax", sc, (k + 3) % 2, "r"))
+            for a in ("sax2", "dom"):
+                x = res.get((k, a, sc, (k + len(a)) % 2, "r"))
+                if ref and x and remerge(C02.parse_impl(ref[0])[0]) != remerge(C02.parse_impl(x[0])[0]) and not C02.parse_impl(x[0])[1]:
+                    bad("sax and %s (scanner %s) disagree on the stream with entity boundaries" % (a, sc), x[1], x[0], ref[0])
+    ctx.coverage["progressive_documents"] = len(docs)
+    ctx.coverage["traces_validated_against_impl"] += len(lines)
+
+
+def remerge(ev):
+    out = []
+    for t in ev.split(" "):
+        if t.startswith("T") and out and out[-1].startswith("T"):
+            out[-1] += t[1:]
+        else:
+            out.append(t)
+    return " ".join(out)
+
+
 def run(ctx):
     # the document-level correspondence is shared with C02 (its listed findings apply to these documents as well)
     ctx.known = ctx.known + V.load_known_findings("C02")
@@ -125,6 +333,8 @@ def run(ctx):
         ctx.violation("correspondence", {"what": "attribute normalisation model differs from the implementation although "
                                          "the implementation satisfies the Spec (%d cases)" % len(unexplained),
                                          "request": lines[idx.index((k, a, s, ns))], "impl": ev, "model": ml}, no_input=True)
+    large_eol(ctx, xh, xm3)
+    progressive(ctx, xh)
     ctx.coverage["attnorm_cases"] = len(vals)
     ctx.coverage["traces_validated_against_impl"] += len(lines)
     ctx.coverage["rule"] += ("; attribute normalisation: %d raw values x {NMTOKENS, CDATA} x {IG, DG} x namespaces x 4 APIs "
